@@ -1008,6 +1008,9 @@ class Image(object):
 
         self._wcs = _flip_wcs_parity(self._wcs, self.height)
         self._array = self.asarray()[::-1]
+        # Ensure that we don't try to use the PIL representation anymore, since
+        # it still holds the rows in their original order.
+        self._pil = None
         return self
 
     def ensure_negative_parity(self):
